@@ -1,7 +1,7 @@
 (* Driver for the C14 correspondence: runs the WebSocket model on one case and renders every
    observable canonically (same rendering as harness/src/bin/c14.rs). *)
 From Coq Require Import String.
-From AV Require Import Lib.Base Lib.V Ws.Mask Ws.Frame Ws.Codec Ws.Stream Ws.Handshake.
+From AV Require Import Lib.Base Lib.V Ws.Mask Ws.Frame Ws.Codec Ws.Stream Ws.Handshake Ws.HashKey.
 Open Scope N_scope.
 
 (* payload described structurally: [pat] repeated cyclically up to [len] bytes *)
@@ -135,9 +135,11 @@ Definition run_C14 (c : case) : V :=
       let data := match trunc with Some t => firstn (N.to_nat t) data | None => data end in
       VRun (feed lossy_ascii (role server max) [] (segments data cs))
   | CHandshake method h =>
-      match verify_handshake method h with
-      | None => VT "ok" []
-      | Some e => VT "err" [VHsErr e]
+      match handshake method h with
+      | Val (HsOk accept) => VT "ok" [VBytes accept]
+      | Val (HsErr e) => VT "err" [VHsErr e]
+      | Panic => VT "panic" []
       end
-  | CHashKey key => VT "hash" []
+  | CHashKey key =>
+      match hash_key key with Val a => VT "hash" [VBytes a] | Panic => VT "panic" [] end
   end.
